@@ -17,9 +17,13 @@ CHECKS = {
           "nothing; under the pipeline's client discipline no call ever blocks forever, every tracked seed is queued or held, a queued "
           "seed is delivered after position+1 receives. Facts (operation order inside the API functions, capacities, priority check, "
           "how feedback updates the table) are regenerated from reactor.go; API histories run against the real reactor (blocked calls "
-          "detected by goroutine state) and are compared with the model; concurrent stress runs check the accounting.",
-  "note": COMMON_NOTE + "Modelled not verified: Go channels/select/sync.Map and FIFO wake-up of parked senders; the theorems are about "
-          "one-call-at-a-time histories with parked calls; real interleavings inside a call are only sampled by the stress runs.",
+          "detected by goroutine state) and are compared with the model; concurrent stress runs check the accounting. Added: the reactor "
+          "under concurrent callers (Model/ReactorFine): each API call split into the operations read from the source, any number of "
+          "calls interleaving between them; for every schedule tokens in use = tracked seeds + calls between their two operations, never "
+          "above the configured number; the two forbidden operation orders are shown to break it.",
+  "note": COMMON_NOTE + "Modelled not verified: Go channels/select/sync.Map (each operation atomic) and FIFO wake-up of parked senders; "
+          "the interleaving theorem is about the operation sequences the extractor reads from the source; real schedules are only sampled "
+          "by the stress runs.",
  },
  "C10": {
   "text": "PARTIAL by nature: what a third-party parser does on a given byte string is outside any model of Zeno. Proved (decision "
@@ -90,7 +94,10 @@ CHECKS = {
           "http/https with a dotted non-loopback host; a map-ordered encoder is provably not a function (D1). Facts: guard constants "
           "and order, hash clearing, quote trimming, whether encodeQuery ranges over a map. Grammar-generated and mutated URLs x "
           "parents go through the real NormalizeURL + String() seven times each (determinism), re-fed (idempotence), shape-checked by "
-          "an independent oracle; raw queries and random byte strings are compared with the model.",
+          "an independent oracle; raw queries and random byte strings are compared with the model. Added: the reference resolver of the "
+          "URL standard as a Lean model (remove_dot_segments, merge, resolve) with theorems (no dot segment survives, what a relative "
+          "reference inherits, query-only / empty / path-absolute forms, idempotence, the RFC 3986 examples) and a correspondence stream: "
+          "the real normaliser against that model on generated (page, reference) pairs.",
   "note": COMMON_NOTE + "Modelled not verified: URL parsing and reference resolution (ada WHATWG parser, net/url, idna) are oracles whose "
           "outputs are only checked for shape/determinism/idempotence on the generated grammar; 'resolves as the URL standard prescribes' "
           "is therefore validated by sampling, not proved.",
@@ -112,7 +119,9 @@ CHECKS = {
           "seed's row is deleted / the seed reported finished only after every exchange fetched for it was written; negation proved "
           "for the pinned shape (D9). Facts: SQL status literals, transaction boundaries of Get/Add/Delete, what Init and Stop reset, "
           "the position of the feedback wait before ItemArchived, notification after MarkAsFinished. Op sequences with kills anywhere "
-          "run against the real LQ client on a temp job directory; thorough: end-to-end crawls killed / stopped and restarted.",
+          "run against the real LQ client on a temp job directory; thorough: end-to-end crawls killed / stopped and restarted. Added: "
+          "the consumer loop as a model (every parsable URL handed out is inserted into the reactor whatever preceded it; the scope of "
+          "its discard flag is a fact).",
   "note": COMMON_NOTE + "Modelled not verified: SQLite atomic commit across a kill; the WARC library's contract (records on disk before the "
           "feedback signal; a truncated tail does not damage earlier records) — validated end to end in the thorough tier only; kill "
           "points are event-driven, not instruction-level.",
@@ -124,7 +133,12 @@ CHECKS = {
           "drained every accepted seed was reported exactly once; a seed is acknowledged only when no node of its tree is pending. Facts: "
           "stage wiring, each worker forwards every seed once, the finisher's three exits and the unconditional notification. The real "
           "reactor + finisher goroutines are run on random trees over several passes and compared with the model; whole crawls against a "
-          "scripted origin with a fake crawl HQ are judged for exactly-once acknowledgement after the last request of the tree.",
+          "scripted origin with a fake crawl HQ are judged for exactly-once acknowledgement after the last request of the tree. "
+          "Added: the stage models themselves composed into the life of one seed (Model/Life): for every oracle in every pass the "
+          "finisher lets the seed go after at most 4*max-redirect+4 passes, only with nothing pending, and preprocess never panics "
+          "(domains-crawl off, ids distinct) - no assumption on the trees handed on; the flow through the bounded channels and worker "
+          "pools (Model/Flow, capacities as facts): in flight = tokens in use <= --workers, the finisher's feedback never blocks, no "
+          "interleaving of receives and sends wedges the pipeline; whole lives run through the real stages and are judged for that shape.",
   "note": COMMON_NOTE + "Liveness (every seed eventually leaves the pipeline) is observed, not proved. Channel hand-over is assumed atomic. "
           "The model's stages transform trees arbitrarily, so stage bugs that corrupt a tree are C11/C05/C06's, not C01's.",
  },
@@ -199,7 +213,9 @@ CHECKS = {
           "get 0; the redirect / hops bound is an invariant of postprocess over whole trees; the retry loop runs exactly max-retry+1 "
           "times (over the regenerated loop facts). Adversarial scripted sites (endless chains, loops, endless nested JSON) are pushed "
           "through the real stages until the seed finishes; each fetch, node and outlink is judged by an independent oracle and each "
-          "step is replayed on the model.",
+          "step is replayed on the model. Added: 'every seed finishes after a bounded number of passes' as a theorem over the composed "
+          "stage models (one pass either ends the seed's life or deepens its tree by exactly one level; no tree in start-of-pass shape is "
+          "deeper than 4*max-redirect+3), judged on the real stages pass by pass.",
   "note": COMMON_NOTE + "The depth limit is proved as an invariant of whole trees for postprocess and archive (every subtree with pending work is "
           "within three levels); preprocess and completion marking are covered by the stage-level runs. Termination of a whole seed (pass "
           "count) is checked on the implementation, not proved.",
